@@ -33,10 +33,16 @@ class T0:
     def __init__(self, tag: Any) -> None:
         self.tag = tag
 
+    def __len__(self) -> int:  # an (empty) container-like resource: its truth value is False
+        return 0
+
 
 class T1:
     def __init__(self, tag: Any) -> None:
         self.tag = tag
+
+    def __bool__(self) -> bool:  # a flag-like resource that is currently off
+        return "generated" in str(self.tag) or "late" in str(self.tag)
 
 
 class T2(T0):
